@@ -15,12 +15,14 @@
    returns the caller's bytes.
    C13_rule_w_partial: W equals the number of elements (1..3) or is 0 with every element
    length-prefixed, and no element is empty - for every input and MTU.
-   Not yet theorems (decided by the correspondence check and its oracles only): cleared size
-   flags in transmitted OBU headers, the layer-id separation rule, the decoder
-   refinement for packets that mix complete and fragmented elements, and the end-to-end lossless
-   statement for OBU sequences that mix both (C13_lossless_partial covers 1-3 small OBUs in one
-   packet, C13_lossless_big_partial one OBU of any size sent alone)
-   (C13_rules_rest, C13_depack_sem, C13_lossless). *)
+   The general statements, closed during the build, are in the second half of this file and subsume
+   the _partial ones: C13_depack_sem (decoder = aggregation-header semantics for any well-chained
+   packet sequence), C13_lossless / C13_lossless_unsized_last (payloader + depacketizer end to end
+   for every OBU sequence and MTU; the transmitted elements are the OBUs with the size flag
+   cleared), C13_legacy_sem / C13_lossless_legacy (the deprecated AV1Packet + frame assembler path),
+   C13_rule_layers / C13_rule_layers_unsized_last (OBUs with different temporal or spatial ids never
+   share a packet; a sequence header is first in its packet; packets do not span temporal
+   delimiters).  Nothing of the property's text is left to the correspondence check alone. *)
 From Coq Require Import ZArith List Lia Bool.
 From RTP Require Import Base.Res Base.ListX Model.Leb128 Model.Obu Proofs.Leb128Proofs Proofs.C13_Obu Model.Av1Pay Proofs.C08_Av1 Proofs.C13_ZY Model.Av1Depack Proofs.C13_Depack Proofs.C13_Small Proofs.C13_DepackW0 Model.Av1Legacy Proofs.C13_Legacy Proofs.C13_W Proofs.C15_Av1 Proofs.C13_Frag Proofs.C13_Big.
 Import ListNotations.
@@ -192,6 +194,46 @@ Theorem C13_lossless_legacy : forall mtu obus, 2 <= mtu < 2097152 -> Forall wf_i
     legacy_run None pkts = Some (None, map io_elem (filter transmitted obus)).
 Proof. exact av1_lossless_legacy. Qed.
 Print Assumptions C13_lossless_legacy.
+
+(* the rules about which OBUs may share a packet.  [groups obus] cuts the OBU sequence (dropped
+   temporal delimiters and tile lists take part in the decisions, as in the code) into consecutive
+   groups: a new group starts at every temporal delimiter, every sequence header, and every OBU whose
+   extension header carries a temporal or spatial id different from the one remembered for the group.
+   The payloader's output is the concatenation, group by group, of packet runs that are
+   self-contained on the wire - first packet Z = 0, last packet Y = 0, at most MTU bytes each - and
+   whose glued elements are exactly that group's transmitted OBUs.  So no packet holds OBUs of two
+   groups, and by [groups_rules]: all extension headers inside a group carry the same temporal and
+   spatial id (OBUs with different layer ids never share a packet), and a sequence header or
+   temporal delimiter is always the first OBU of its group (a sequence header is the first OBU of
+   its packet; packets do not span temporal units). *)
+From RTP Require Import Proofs.C13_Groups.
+
+Theorem C13_rule_layers : forall mtu obus, 2 <= mtu < 2097152 -> Forall wf_iobu obus ->
+  exists pkss, av1_payload mtu (stream obus) = Ok (map spk_bytes (concat pkss)) /\
+    Forall2 (grp_spec mtu) (groups obus) pkss /\
+    Forall (fun g => layers_agree g /\ starts_only_first g) (groups obus) /\ concat (groups obus) = obus.
+Proof. exact av1_layer_rule. Qed.
+Print Assumptions C13_rule_layers.
+
+Theorem C13_rule_layers_unsized_last : forall mtu init lst, 2 <= mtu < 2097152 -> Forall wf_iobu init -> wf_iobu lst ->
+  exists pkss, av1_payload mtu (stream_u init lst) = Ok (map spk_bytes (concat pkss)) /\
+    Forall2 (grp_spec mtu) (groups (init ++ [lst])) pkss /\
+    Forall (fun g => layers_agree g /\ starts_only_first g) (groups (init ++ [lst])) /\
+    concat (groups (init ++ [lst])) = init ++ [lst].
+Proof. exact av1_layer_rule_u. Qed.
+Print Assumptions C13_rule_layers_unsized_last.
+
+(* non-vacuity: three distinct layer ids in a row, an OBU without extension header in between, a
+   dropped tile list with yet another id: four groups, and the packets at MTU 9 *)
+Example C13_rule_layers_nonvacuous :
+  let a := mkIobu 6 (Some (0, 0, 0)) false [1; 2] in
+  let b := mkIobu 6 None false [3] in
+  let c := mkIobu 6 (Some (1, 0, 0)) false [4; 5] in
+  let tl := mkIobu 8 (Some (2, 1, 0)) false [9] in
+  let d := mkIobu 6 (Some (1, 1, 0)) false [6] in
+  groups [a; b; c; tl; d] = [[a; b]; [c]; [tl]; [d]] /\
+  av1_payload 9 (stream [a; b; c; tl; d]) = Ok [[32; 4; 52; 0; 1; 2; 48; 3]; [16; 52; 32; 4; 5]; [16; 52; 40; 6]].
+Proof. split; vm_compute; reflexivity. Qed.
 
 Example C13_lossless_nonvacuous :
   let obus := [mkIobu 2 None false []; mkIobu 1 None false [10; 11]; mkIobu 6 (Some (1, 0, 0)) false [1; 2; 3; 4; 5; 6; 7]] in
